@@ -145,6 +145,9 @@ let eval case impl =
        a record freed anywhere else (or twice, or never allocated through the loop) shows here *)
     let reca = (try int_of_string (get "recalloc") with _ -> accepted) and recf = (try int_of_string (get "recfree") with _ -> freed) in
     let alloc_ok = reca = accepted && recf = freed in
+    (* runs that leave the server alone before stopping it: nothing may be held then *)
+    let quiet_ok = (match get "quiet" with "ok" | "skipped" | "?" -> true | _ -> false) in
+    let alloc_ok = alloc_ok && quiet_ok in
     let c15_other = verdict <> "ACCEPTED" || not streams_ok || not alloc_ok in
     let fails =
       (if c14 then [] else [("C14", "-")]) @
